@@ -123,10 +123,9 @@ class Assembler:
 
         if stmt.get("type") == "org":
             if first_pass:
-                try:
-                    new_addr = int(str(stmt["args"]), 0)
-                except ValueError:
-                    new_addr = 0
+                # A name is resolved against the labels defined so far; an
+                # origin that cannot be known yet is an error, not address 0.
+                new_addr = self._evaluate_operand(str(stmt["args"]))
             else:
                 new_addr = self._evaluate_operand(str(stmt["args"]))
                 self.current_address = new_addr
